@@ -397,6 +397,37 @@ def impl_search(ctx: Ctx, rng, hist, focus):
             findings.append({"what": "replacement rule: a lower-tier skill must be built exactly when its 6th-job replacement has level 0",
                              "config": cfg, "detail": bad, "skill_levels": o["skill_levels"]})
     ctx.log("grid: %d configurations built (+engine), %d findings, %.1fs" % (n_grid, len(findings), time.time() - t0g))
+    # ---- (a') per-skill level maps: replacements learned / not learned independently of each other
+    t0m = time.time()
+    mixed = []
+    for job in H.JOBS:
+        pairs = list(profs[job]["mastery"])
+        if not pairs:
+            continue
+        highs = [h for _l, h in pairs]
+        pats = [{highs[-1]: 7, **{h: 0 for h in highs[:-1]}}, {highs[0]: 3, **{h: 0 for h in highs[1:]}},
+                {highs[-1]: 0, **{h: 30 for h in highs[:-1]}}]
+        for _ in range(6 if ctx.thorough else 2):
+            pats.append({h: rng.choice([0, 0, 1, 15, 30]) for h in highs})
+        for pat in pats:
+            lv = {a: rng.choice(H.BOUNDARY[a]) for a in H.AXES}
+            cfg = H.make_cfg(job, rng.randrange(3), **lv)
+            cfg["skill_levels_override"] = pat
+            mixed.append(cfg)
+    obs = H.pool_map(H.observe_task, [(c, False, False, None) for c in mixed], chunksize=4)
+    for cfg, o in zip(mixed, obs):
+        if o["error"]:
+            findings.append({"what": "a per-skill level configuration in the documented ranges does not build", "config": cfg, "error": o["error"],
+                             "trace": o.get("trace")})
+            continue
+        if len(set(o["names"])) != len(o["names"]):
+            findings.append({"what": "built skills are not uniquely named", "config": cfg,
+                             "duplicates": [n for n, k in collections.Counter(o["names"]).items() if k > 1]})
+        for bad in H.replacement_violations(o, profs[cfg["job"]]):
+            findings.append({"what": "replacement rule: a lower-tier skill must be built exactly when its 6th-job replacement has level 0 "
+                                     "(per-skill levels)", "config": cfg, "detail": bad, "skill_levels": o["skill_levels"]})
+    hist["mixed_per_skill_level_maps"] = len(mixed)
+    ctx.log("per-skill level maps: %d configurations, %d findings so far, %.1fs" % (len(mixed), len(findings), time.time() - t0m))
     # ---- (c) random well-formed plans
     t2 = time.time()
     plans = []
